@@ -440,17 +440,22 @@ def gen_case(src):
             test_text, test_node = "1 in (>= %s)" % vt, ["in", ["num", "1"], [["t_cmp", ">=", ["name", vt]]]]
         binder = src.choice(["for", "some", "every", "fn", "ctx", "filter", "none"])
         one = ["num", "1"]
+        if src.bool(0.35) and binder != "none":
+            # the inner binding holds NULL: a name bound to null is bound all the same, it does not let the outer binding show through
+            one = ["null"]
+            form = "null-shadow"
+            test_text, test_node = "%s = null" % vt, ["cmp", "=", ["name", vt], ["null"]]
         if binder == "for":
-            text, node = "for %s in [1] return %s" % (vt, test_text), ["for", [[vt, ["dl", ["list", [one]]]]], test_node]
+            text, node = "for %s in [%s] return %s" % (vt, F.r(one), test_text), ["for", [[vt, ["dl", ["list", [one]]]]], test_node]
         elif binder in ("some", "every"):
-            text, node = "%s %s in [1] satisfies %s" % (binder, vt, test_text), [binder, [[vt, ["list", [one]]]], test_node]
+            text, node = "%s %s in [%s] satisfies %s" % (binder, vt, F.r(one), test_text), [binder, [[vt, ["list", [one]]]], test_node]
         elif binder == "fn":
-            text, node = "(function(%s) %s)(1)" % (vt, test_text), ["call", ["fn", [[vt, None]], test_node], [one]]
+            text, node = "(function(%s) %s)(%s)" % (vt, test_text, F.r(one)), ["call", ["fn", [[vt, None]], test_node], [one]]
         elif binder == "ctx":
-            text, node = "{%s: 1, r9: %s}.r9" % (vt, test_text), ["path", ["ctx", [[vt, one], ["r9", test_node]]], "r9"]
+            text, node = "{%s: %s, r9: %s}.r9" % (vt, F.r(one), test_text), ["path", ["ctx", [[vt, one], ["r9", test_node]]], "r9"]
         elif binder == "filter":
             # (two items: a filter that selects exactly one item returns the item itself - the open finding C01/filter-singleton-unwrapped)
-            text = "count([{%s: 1}, {%s: 1}][%s])" % (vt, vt, test_text)
+            text = "count([{%s: %s}, {%s: %s}][%s])" % (vt, F.r(one), vt, F.r(one), test_text)
             node = ["call", ["name", "count"], [["filter", ["list", [["ctx", [[vt, one]]], ["ctx", [[vt, one]]]]], test_node]]]
         else:
             text, node = test_text, test_node       # control: the outer binding at the end point
